@@ -73,7 +73,15 @@ func ClearTextPassword(validate func(ctx context.Context, database, username, pa
 		}
 
 		if !valid {
-			return ctx, ErrorCode(writer, pgerror.WithCode(errors.New("invalid username/password"), codes.InvalidPassword))
+			err = pgerror.WithCode(errors.New("invalid username/password"), codes.InvalidPassword)
+			werr := writeErrorResponse(writer, err)
+			if werr != nil {
+				return ctx, werr
+			}
+
+			// NOTE: the rejection has to be returned as an error, otherwise the
+			// connection would be served as if it had been authenticated.
+			return ctx, err
 		}
 
 		return ctx, writeAuthType(writer, authOK)
